@@ -837,6 +837,184 @@ def nrm1(p, res, rule="NRM-1"):
     return n
 
 
+# ------------------------------------------------------------------ WR-7
+def wr7(p, res):
+    """block extraction into an output operand (fft64 convolution prepare): per block the rows written by the extraction kernel plus the rows
+    zero-filled behind them make up the whole row count of the destination; without a zero fill the extracted row count must be the destination's,
+    evaluated in the frame of the caller that sizes the temporary"""
+    from .c17 import key_le
+    from .c12 import subst_key
+    n = 0
+    callers = {}
+    for f0 in p.lib_fns():
+        for bi, t in f0.calls():
+            for x in p.targets(f0, t):
+                callers.setdefault(x, []).append((f0, bi, t))
+
+    def loop_var_of(f, g, plain, sym, b):
+        L = g.innermost_loop(b)
+        while L is not None:
+            for bb in sorted(L["body"]):
+                t = f.blocks[bb]["t"]
+                if t and t["k"] == "Call" and (f.callee_def(t) or {}).get("n") == "next" and g.innermost_loop(bb) is L:
+                    return Poly.atom(("call", f.uid, bb, ("0",))), L
+            L = None
+        return None, None
+
+    def coeff_of(poly, var_atom):
+        out = Poly()
+        rest = Poly()
+        for mono, c in poly.t.items():
+            if mono.count(var_atom) == 1:
+                m2 = list(mono)
+                m2.remove(var_atom)
+                term = Poly.const(c)
+                for a in m2:
+                    term = term * Poly.atom(a)
+                out = out + term
+            elif var_atom not in mono:
+                term = Poly.const(c)
+                for a in mono:
+                    term = term * Poly.atom(a)
+                rest = rest + term
+        return out, rest
+
+    for f in sorted(p.lib_fns(), key=lambda x: x.uid):
+        if f.kind == "Closure" or not f.uid.startswith("poulpy_cpu_ref::reference::fft64::convolution"):
+            continue
+        g = CFG(f)
+        plain = Flow(f)
+        sym = Sym(f, plain)
+        vflow = Flow(f, transparent=("index_mut", "index", "raw_mut", "raw", "to_mut", "deref_mut", "as_mut"))
+        for bi, t in f.calls():
+            if (f.callee_def(t) or {}).get("n") != "reim4_extract_1blk_contiguous":
+                continue
+            dst = t["a"][3]
+            roots = vflow.op_roots(dst)
+            outs = [r for r in roots if r[0] == "param" and f.local_ty(r[1]).get("r", "").startswith("&mut")]
+            if not outs:
+                continue  # extraction into a temporary (vmp): MS-8 territory
+            # destination start: index_mut(base, RangeFrom{start})
+            dr = [r for r in plain.op_roots(dst) if r[0] == "call"]
+            if len(dr) != 1 or (f.callee_def(f.blocks[dr[0][1]]["t"]) or {}).get("n") != "index_mut":
+                res.undec("WR-7", "%s: destination of the extraction is not a range-from sub-slice" % f.pretty)
+                continue
+            n += 1
+            it = f.blocks[dr[0][1]]["t"]
+            S = sym.operand(it["a"][1], ("start",))
+            base_roots = plain.op_roots(it["a"][0])
+            var, L = loop_var_of(f, g, plain, sym, bi)
+            if var is None:
+                res.undec("WR-7", "%s: extraction outside a block loop" % f.pretty)
+                continue
+            va = next(iter(var.atoms()))
+            stride, _ = coeff_of(S, va)
+            rows = sym.operand(t["a"][1])
+            written = rows * Poly.const(8)
+            # a zero fill of the same base slice inside the same loop
+            covered = None
+            for b2 in sorted(L["body"]):
+                t2 = f.blocks[b2]["t"]
+                if not t2 or t2["k"] != "Call" or (f.callee_def(t2) or {}).get("n") not in ("reim_zero", "znx_zero", "fill"):
+                    continue
+                zr = [r for r in plain.op_roots(t2["a"][0]) if r[0] == "call"]
+                if len(zr) != 1 or (f.callee_def(f.blocks[zr[0][1]]["t"]) or {}).get("n") != "index_mut":
+                    continue
+                zt = f.blocks[zr[0][1]]["t"]
+                if plain.op_roots(zt["a"][0]) != base_roots:
+                    continue
+                zs, ze = sym.operand(zt["a"][1], ("start",)), sym.operand(zt["a"][1], ("end",))
+                covered = ((zs - S) == written, (ze - S) == stride, repr(zs - S), repr(ze - S))
+            if covered is not None:
+                if covered[0] and covered[1]:
+                    res.ok("WR-7", {"fn": f.pretty, "rows_extracted": repr(rows), "zero_fill": "from %s to %s of each block" % (covered[2], covered[3])})
+                else:
+                    res.bad("WR-7", f.pretty, "block-rows-gap",
+                            "%s extracts `%r` rows per block and zero-fills from offset %s to %s of a block of %r scalars: rows between are left with their previous contents"
+                            % (f.pretty, rows, covered[2], covered[3], stride), site=f.where(t["l"]))
+                continue
+            # no zero fill: the extraction itself must cover the block, in the frame that sizes the temporaries
+            def frames(fn, stack, depth):
+                out = []
+                cs = [c for c in callers.get(fn.uid, []) if not c[0].is_test()]
+                if not cs or depth >= 3:
+                    return [stack]
+                for (c, cb, ct) in cs:
+                    out.extend(frames(c, [(c, ct)] + stack, depth + 1))
+                return out
+            ok_all = True
+            why = ""
+            for stack in frames(f, [], 0):
+                chain = stack + [(f, None)]
+                syms = []
+                for k, (fr, ct) in enumerate(chain):
+                    sub = {}
+                    if k > 0:
+                        pf, pct = chain[k - 1]
+                        for ai, a in enumerate(pct["a"]):
+                            sub[(ai + 1, ())] = syms[k - 1].operand(a)
+                    syms.append(Sym(fr, Flow(fr), param_subst=sub))
+                r2 = syms[-1].operand(t["a"][1])
+                s2 = syms[-1].operand(it["a"][1], ("start",))
+                st2, _ = coeff_of(s2, va)
+                # size of an object taken in an outer frame = the size argument of the take
+                mapping = {}
+                def resolve(poly):
+                    out = Poly()
+                    for mono, c in poly.t.items():
+                        term = Poly.const(c)
+                        for a in mono:
+                            term = term * resolve_atom(a)
+                        out = out + term
+                    return out
+                def resolve_atom(a):
+                    if a[0] == "f" and a[1] == "size" and len(a[2]) == 1 and len(a[2][0]) == 1 and len(a[2][0][0][0]) == 1:
+                        inner = a[2][0][0][0][0]
+                        if inner[0] == "call" and len(inner) >= 3:
+                            fr0 = p.fn(inner[1])
+                            if fr0 is not None:
+                                tt = fr0.blocks[inner[2]]["t"]
+                                if (fr0.callee_def(tt) or {}).get("n", "").startswith("take_vec_znx"):
+                                    for (fr, ct), sy in zip(chain, syms):
+                                        if fr.uid == fr0.uid:
+                                            return sy.operand(tt["a"][-1])
+                    if a[0] == "f" and isinstance(a[2], tuple):
+                        args = []
+                        for k2 in a[2]:
+                            if isinstance(k2, tuple) and (not k2 or (isinstance(k2[0], tuple) and len(k2[0]) == 2 and isinstance(k2[0][0], tuple))):
+                                args.append(resolve(Poly(dict(k2))).key())
+                            else:
+                                args.append(k2)
+                        return Poly.atom((a[0], a[1], tuple(args)) + tuple(a[3:]))
+                    return Poly.atom(a)
+                r3, st3 = resolve(r2), resolve(st2)
+                need = st3  # scalars per block
+                have = r3 * Poly.const(8)
+                good = have == need
+                if not good:
+                    # rows >= block rows through min/max structure: compare rows with stride / 8 when the stride is 8 * X
+                    halves = Poly()
+                    okdiv = True
+                    for mono, c in need.t.items():
+                        if c % 8 != 0:
+                            okdiv = False
+                        term = Poly.const(c // 8)
+                        for a in mono:
+                            term = term * Poly.atom(a)
+                        halves = halves + term
+                    good = okdiv and key_le(halves.key(), r3.key())
+                if not good:
+                    ok_all = False
+                    why = "rows = %r, block rows = %r / 8 (frame of %s)" % (r3, need, chain[0][0].name)
+            if ok_all:
+                res.ok("WR-7", {"fn": f.pretty, "rows_extracted": repr(rows), "zero_fill": "none needed: the extraction covers the block"})
+            else:
+                res.bad("WR-7", f.pretty, "block-rows-gap",
+                        "%s extracts `%r` rows per block and has no zero fill behind them; %s: the remaining rows of the destination keep their previous contents" % (f.pretty, rows, why),
+                        site=f.where(t["l"]))
+    return n
+
+
 def run(res, tier):
     res.level = "other"
     res.explanation = ("Shape-level clauses of C11 on MIR of every HAL shape function of the reference and AVX crates (functions with an (X, X_col) operand pair): for overwrite-type "
@@ -848,6 +1026,7 @@ def run(res, tier):
     res.rule("WR-2", "every at/at_mut on a view of operand X takes X_col as its column (polynomial identity, closures included)")
     res.rule("WR-3", "pointers from as_ptr() of read-only slice operands never become store destinations")
     res.rule("COL-2", "core noise-free operations read an operand at the loop's column index only below the operand's own rank + 1 (bound equal, min-dominated, or ranks asserted equal)")
+    res.rule("WR-7", "block extraction into an output operand: rows extracted + rows zero-filled = rows of the destination block (or the extraction alone covers it, in the frame that sizes the temporary)")
     res.rule("WR-6", "carry buffers of shift / normalisation shape functions are written (first_step* kernel or znx_zero) before any middle/final step reads them on every feasible path, zero-trip loops included (a skipped `for j in 0..T` implies T == 0)")
     res.rule("WR-5", "every mutable use of a column-selected output operand is column-selective (at_mut / zero_at), a re-view, or a hand-over to another shape function; whole-object mutators are violations (five raw-offset functions listed by name)")
     res.rule("WR-4", "raw-slice kernels taking `limb_offset`: the zero fill of the result starts exactly one stride after the last explicitly addressed written limb (fft64 and ntt120 vector-matrix products)")
@@ -872,6 +1051,8 @@ def run(res, tier):
         res.floor("COL-2", "read operands indexed by a column loop", nc2, 10)
         n6 = wr6(p, res)
         res.floor("WR-6", "shape functions with a carry buffer", n6, 6)
+        n7 = wr7(p, res)
+        res.floor("WR-7", "block extractions into an output operand", n7, 2)
         n5 = wr5(p, res)
         res.floor("WR-5", "shape functions with a column-selected output", n5, 150, ref_min=90)
         n4 = wr4(p, res)
